@@ -595,7 +595,7 @@ func (av *Array) ToKey(b *bytes.Buffer) {
 	b.WriteByte(0)
 	b.WriteByte(HkArray)
 	for _, e := range av.elements {
-		appendKey(b, e)
+		appendElementKey(b, e)
 	}
 }
 
